@@ -38,19 +38,21 @@ FAMILIES = {
         rule='handlers that dispatch to any bus and await with sleeps/yields before and during the await, nesting <= 4; '
              'non-trivial: an in-handler await occurs'),
     'C05': dict(
-        gens=[('core', dict(nb=(1, 3), proglen=(1, 6), tasklen=(2, 7)), 0.7), ('chain', dict(p_timeout=0.0, p_unrelated=0.8, p_parallel=0.2), 0.3)],
-        facets=CORE + ['await', 'signal', 'lock'],
+        gens=[('core', dict(nb=(1, 3), proglen=(1, 6), tasklen=(2, 7)), 0.5), ('chain', dict(p_timeout=0.0, p_unrelated=0.8, p_parallel=0.2), 0.2),
+              ('chain', dict(p_timeout=1.0, p_await=0.95, min_depth=3, nb=(1, 1), maxh=(50,), p_unrelated=0.6), 0.3)],
+        facets=CORE + ['await', 'signal', 'lock', 'timeout', 'results'],
         rule='queues holding 0-4 unrelated events before/after the awaited child on the same/other buses, external dispatch during the window; '
              'non-trivial: an in-handler await occurs while another event is queued somewhere'),
     'C06': dict(
-        gens=[('core', dict(nb=(2, 3)), 1.0)],
-        facets=CORE + ['lock', 'await'],
+        gens=[('core', dict(nb=(2, 3)), 0.65), ('core', dict(nb=(2, 3), p_timeout=0.6, p_cleanup=0.6, proglen=(1, 5)), 0.35)],
+        facets=CORE + ['lock', 'await', 'timeout'],
         rule='2-3 buses, first use of a bus from main code / from inside a handler / inside an awaited child, long handlers; '
              'non-trivial: two buses each start a handler'),
     'C07': dict(
-        gens=[('core', dict(nb=(2, 3), p_forward=0.45, p_wild=0.4), 0.6),
-              ('core', dict(nb=(2, 4), p_forward=0.5, p_wild=0.5, p_redispatch=0.25, nh=(2, 8)), 0.4)],
-        facets=CORE + ['path', 'dispatch', 'results', 'lock'],
+        gens=[('core', dict(nb=(2, 3), p_forward=0.45, p_wild=0.4), 0.4),
+              ('core', dict(nb=(2, 4), p_forward=0.5, p_wild=0.5, p_redispatch=0.25, nh=(2, 8)), 0.3),
+              ('core', dict(nb=(2, 3), p_forward=0.4, p_wild=0.5, p_timeout=0.6, nh=(3, 8), proglen=(1, 4)), 0.3)],
+        facets=CORE + ['path', 'dispatch', 'results', 'lock', 'timeout'],
         rule='random forwarding digraphs (incl. self loops, several wildcard forwards per bus) with ordinary handlers and concurrent traffic; '
              'non-trivial: some forwarding handler dispatches'),
     'C08': dict(
@@ -111,7 +113,7 @@ FAMILIES = {
     'C12': dict(engine='eng_results', facets=[], rule='see eng_results.py'),
 }
 
-BUDGET = {'quick': 480, 'thorough': 12000}
+BUDGET = {'quick': 960, 'thorough': 16000}
 
 
 def gen_backlog(rng, **_):
